@@ -52,6 +52,29 @@ func queueSeq(c *ctxT, r *gen.R, closeHeavy bool) {
 			for j := range buf { // scribble over the caller's buffer
 				buf[j] ^= 0xff
 			}
+		case k < 16 && !closed && q.Len() > 0 && r.Intn(4) == 0:
+			// a Receive whose context is already cancelled while messages are queued: it may take one
+			// or return the context error, but it must not consume a message without handing it out
+			ctx, cancel := context.WithCancel(context.Background())
+			cancel()
+			var got *sx.V
+			err := q.Receive(ctx, func(m p2p.Message[hAddr]) {
+				v := sx.L(sx.S("got"), sx.I(m.Src.N), sx.I(m.Dst.N), sx.B(append([]byte{}, m.Payload...)))
+				got = &v
+			})
+			switch {
+			case err == nil && got != nil:
+				ops = append(ops, sx.L(sx.S("rc"), sx.I(1)))
+				res = append(res, *got)
+			case errors.Is(err, context.Canceled):
+				ops = append(ops, sx.L(sx.S("rc"), sx.I(0)))
+				res = append(res, sx.L(sx.S("ctx")))
+			default:
+				ops = append(ops, sx.L(sx.S("rc"), sx.I(0)))
+				res = append(res, sx.L(sx.S("other-error")))
+			}
+			ops = append(ops, sx.L(sx.S("l")))
+			res = append(res, sx.L(sx.S("n"), sx.I(q.Len())))
 		case k < 16: // receive
 			ops = append(ops, sx.L(sx.S("r")))
 			ctx, cancel := context.WithTimeout(context.Background(), 2*time.Second)
@@ -81,10 +104,21 @@ func queueSeq(c *ctxT, r *gen.R, closeHeavy bool) {
 			res = append(res, sx.L(sx.S("n"), sx.I(q.Purge())))
 		case k < 18 || (closeHeavy && k < 19): // close
 			ops = append(ops, sx.L(sx.S("c")))
-			if err := q.Close(); err != nil {
-				res = append(res, sx.L(sx.S("close-error")))
-			} else {
-				res = append(res, sx.L(sx.S("done")))
+			cerr := make(chan error, 1)
+			go func() { cerr <- q.Close() }()
+			select {
+			case err := <-cerr:
+				if err != nil {
+					res = append(res, sx.L(sx.S("close-error")))
+				} else {
+					res = append(res, sx.L(sx.S("done")))
+				}
+			case <-time.After(3 * time.Second):
+				// Close collects every buffer: it never returns if one was lost
+				res = append(res, sx.L(sx.S("close-stuck")))
+				c.emit(sx.L(sx.S("hub"), sx.S("qseq"), sx.I(capN), sx.I(mtu), sx.L(ops...)), sx.L(res...))
+				c.count("hub/qseq")
+				return
 			}
 			closed = true
 		default:
